@@ -154,3 +154,12 @@ func (l *Log) Add(format string, args ...any) {
 func (l *Log) Digest() string {
 	return hex.EncodeToString(l.h.Sum(nil))[:32]
 }
+
+// Canon rewrites the recorded value of decision i (an index into Rec) to its canonical effective
+// value. Engines call it so that a decision which had no effect is recorded as 0 (benign): the
+// recorded tape then replays identically and its non-zero entries are exactly the non-benign choices.
+func (t *Tape) Canon(i, v int) {
+	if i >= 0 && i < len(t.Rec) {
+		t.Rec[i].V = v
+	}
+}
